@@ -33,16 +33,18 @@ from harness import tlc
 
 PROP = 'C12'
 SHARDS = ['acc1', 'acc2', 'acc3', 'acc4', 'acc5', 'dbl', 'cyc1', 'cyc2', 'cyc3',
-          'undefined', 'unused', 'redefinition']
+          'undefined', 'unused', 'redefinition', 'agg', 'shadow']
 # quick tier: how many graphs are drawn from each TLC shard
 QUICK_PER_SHARD = {'acc1': 40, 'acc2': 45, 'acc3': 45, 'acc4': 45, 'acc5': 45,
                    'dbl': 30, 'cyc1': 20, 'cyc2': 20, 'cyc3': 20,
-                   'undefined': 25, 'unused': 25, 'redefinition': 25}
+                   'undefined': 25, 'unused': 25, 'redefinition': 25,
+                   'agg': 45, 'shadow': 45}
 # shapes the property quantifies over: each must reach the implementation
 REQUIRED_SHAPES = ['ok', 'chain', 'diamond', 'double_import', 'same_base_name',
                    'alias', 'no_alias', 'two_roots', 'table_helper',
                    'functional_helper', 'circular', 'undefined', 'unused',
-                   'redefinition']
+                   'redefinition', 'agg_multi_rule', 'agg_disjunction',
+                   'shadow_real_first', 'shadow_decoy_first']
 REQUIRED_ACTIONS = ['BeginFile', 'SkipParsed', 'Circular', 'RejectImport',
                     'FinishFile', 'Emit']
 PARSERS = ('PY', 'CPP')
@@ -147,31 +149,47 @@ def ImportLine(g, imp):
   return s + ';'
 
 
-def FileText(case, f):
-  """Source text of file f (1 = main) of the graph: the import statements of
-  the graph followed by the module the specification printed (mods[f])."""
-  g = case['g']
-  lines = ['@Engine("sqlite");'] if f == 1 else []
-  lines += [ImportLine(g, i) for i in g['imps'][f - 1]]
-  body = ir.RenderProgram({'preds': case['mods'][f - 1], 'ann': []},
-                          engine_line=None)
+def ModuleText(g, imps, preds, main=False):
+  """Source text of one physical file: the import statements followed by the
+  module the specification printed."""
+  lines = ['@Engine("sqlite");'] if main else []
+  lines += [ImportLine(g, i) for i in imps]
+  body = ir.RenderProgram({'preds': preds, 'ann': []}, engine_line=None)
   return '\n'.join(lines) + '\n' + body
 
 
+def FileText(case, f):
+  """Text of the copy of file f (1 = main) that the lookup reads."""
+  g = case['g']
+  if f == 1:
+    return ModuleText(g, g['imps'][0], case['mods'][0], main=True)
+  for c in case['copies']:
+    if c['f'] == f and c['real']:
+      return ModuleText(g, c['imps'], c['mod'])
+  raise KeyError(f)
+
+
+def FlatText(case):
+  """The hand-flattened one-file program: text of ImFlatten(g)."""
+  return ir.RenderProgram(dict(case['flat'], ann=[]))
+
+
 def Materialize(case, base):
-  """Writes the imported files under base/root<k>/...; returns
-  (main_text, import_root, {relative path: text})."""
+  """Writes every physical file of the graph (case['copies']: the modules and
+  the decoys that share a path with a module under another root) under
+  base/root<k>/...; returns (main_text, import_root, {relative path: text})."""
   g = case['g']
   roots = [os.path.join(base, 'root%d' % k) for k in range(1, g['nroots'] + 1)]
   for r in roots:
     os.makedirs(r, exist_ok=True)
   written = {}
-  for f in range(2, len(g['files']) + 1):
-    fl = g['files'][f - 1]
-    rel = os.path.join('root%d' % fl['root'], *fl['path']) + '.l'
+  for c in case['copies']:
+    fl = g['files'][c['f'] - 1]
+    rel = os.path.join('root%d' % c['root'], *fl['path']) + '.l'
     full = os.path.join(base, rel)
     os.makedirs(os.path.dirname(full), exist_ok=True)
-    text = FileText(case, f)
+    text = ModuleText(g, c['imps'], c['mod'])
+    assert rel not in written, rel
     with open(full, 'w') as fh:
       fh.write(text)
     written[rel] = text
@@ -192,19 +210,28 @@ def MsgKind(msg):
   return 'other'
 
 
-def Observe(main_text, import_root, query, mode):
+def Heads(parsed):
+  return [r['head']['predicate_name'] for r in parsed['rule']
+          if not r['head']['predicate_name'].startswith('@')]
+
+
+def Observe(main_text, import_root, query, mode, flat_text=None):
   """One run of the real pipeline with parser `mode`."""
   m = impl.Mods()
   parse = m['parse']
   os.environ['LOGICA_PARSER'] = mode
   ob = {'parser': mode, 'status': 'ok', 'obs': [], 'heads': [], 'cls': '',
-        'msg': '', 'msgkind': ''}
+        'msg': '', 'msgkind': '', 'flat_heads': []}
   sink = io.StringIO()
+  if flat_text is not None:
+    # the same parser on the hand-flattened program (a failure here is not
+    # about imports: reported as a harness failure)
+    with contextlib.redirect_stderr(sink), contextlib.redirect_stdout(sink):
+      ob['flat_heads'] = Heads(parse.ParseFile(flat_text))
   try:
     with contextlib.redirect_stderr(sink), contextlib.redirect_stdout(sink):
       parsed = parse.ParseFile(main_text, import_root=import_root)
-    ob['heads'] = [r['head']['predicate_name'] for r in parsed['rule']
-                   if not r['head']['predicate_name'].startswith('@')]
+    ob['heads'] = Heads(parsed)
   except BaseException as e:  # pylint: disable=broad-except
     if isinstance(e, KeyboardInterrupt):
       raise
@@ -241,18 +268,20 @@ def RunCase(case):
   os.makedirs(base)
   try:
     main_text, import_root, written = Materialize(case, base)
+    flat_text = FlatText(case) if case['expect'] == 'ok' else None
     obs = []
     for mode in PARSERS:
       try:
-        obs.append(Observe(main_text, import_root, case['query'], mode))
+        obs.append(Observe(main_text, import_root, case['query'], mode,
+                           flat_text))
       except BaseException as e:  # pylint: disable=broad-except
         if isinstance(e, KeyboardInterrupt):
           raise
         obs.append({'parser': mode, 'status': 'harness', 'obs': [], 'heads': [],
-                    'cls': type(e).__name__, 'msg': str(e)[:600],
-                    'msgkind': ''})
+                    'flat_heads': [], 'cls': type(e).__name__,
+                    'msg': str(e)[:600], 'msgkind': ''})
     return {'id': case['id'], 'main': main_text, 'files': written,
-            'nroots': case['g']['nroots'], 'obs': obs}
+            'flat': flat_text, 'nroots': case['g']['nroots'], 'obs': obs}
   finally:
     os.environ['LOGICA_PARSER'] = 'PY'
     shutil.rmtree(base, ignore_errors=True)
@@ -270,7 +299,8 @@ def TraceLines(case, run):
   out = []
   for ob in run['obs']:
     out.append({'id': case['id'], 'parser': ob['parser'], 'g': case['g'],
-                'status': ob['status'], 'obs': ob['obs'], 'heads': ob['heads']})
+                'status': ob['status'], 'obs': ob['obs'], 'heads': ob['heads'],
+                'flat_heads': ob['flat_heads']})
   return out
 
 
@@ -313,12 +343,19 @@ def Validate(lines, tag, timeout=3000):
 # ---- verdicts -> report --------------------------------------------------------------
 
 NONTRIVIAL = {'chain', 'diamond', 'double_import', 'same_base_name', 'two_roots',
-              'circular', 'undefined', 'unused', 'redefinition'}
+              'circular', 'undefined', 'unused', 'redefinition',
+              'agg_multi_rule', 'agg_disjunction', 'shadow_real_first',
+              'shadow_decoy_first'}
 RULE = ('TLC enumerates every import graph of spec/Imports.tla (main + <= 3 '
         'imported files in <= 3 directories; <= 2 import statements per file, '
         'both statement orders; 3 alias styles; 5 path namings incl. shared '
         'base names; module contents pool table/functional Helper; 1 or 2 '
-        'import roots; plus the main program importing one file twice, all '
+        'import roots; plus: every file defining a same-named Agg that '
+        'aggregates over several rules or over a disjunction (the parser '
+        'rewrites it through auxiliary predicates); a second file with the '
+        'same module path and other contents under the other import root '
+        '(the first root wins), both orders; the main program importing one '
+        'file twice, all '
         'cyclic adjacencies incl. self import, and one injected error per '
         'statement: undefined / unused / redefinition).  quick = seeded '
         'stratified sample per TLC shard, thorough = all.  Each graph is run '
@@ -339,7 +376,7 @@ def Signature(v, ob):
 def Drift(case, ob):
   """Implementation-shaped expectations (R1: informational only)."""
   out = []
-  if case['expect'] == 'ok' and ob['status'] == 'ok':
+  if case['expect'] == 'ok' and ob['status'] == 'ok' and case['g']['pool'] <= 2:
     want = set()
     for f, mod in enumerate(case['mods']):
       for p in mod:
@@ -397,9 +434,9 @@ def Judge(cases, runs, tag):
 def Run(tier):
   clock = common.Clock()
   try:
-    # quick: one third (chosen by the seed) of the adjacencies over 3 imported
+    # quick: one sixth (chosen by the seed) of the adjacencies over 3 imported
     # files, every adjacency over <= 2; thorough: everything
-    slice_ = 'all' if tier == 'thorough' else str(common.Seed() % 3)
+    slice_ = 'all' if tier == 'thorough' else str(common.Seed() % 6)
     all_cases, stats = Enumerate(slice_=slice_)
   except RuntimeError as e:
     print('MACHINERY-FAILURE property=%s %s' % (PROP, str(e)[:3000]))
@@ -469,7 +506,8 @@ def Run(tier):
     rc = rc or 2
 
   pick = []
-  for want in ('diamond', 'same_base_name', 'circular', 'redefinition'):
+  for want in ('diamond', 'same_base_name', 'circular', 'redefinition',
+               'agg_multi_rule', 'shadow_decoy_first'):
     for c, r in zip(cases, runs):
       if want in c['shapes'] and c['id'] not in [p['id'] for p in pick]:
         pick.append(Sample(c, r))
